@@ -788,7 +788,22 @@ def r8_session_timestamp_exact(repo=None):
 def rules(repo=None):
     return [lambda: r8_session_timestamp_exact(repo), lambda: r1_attribute_tables(repo), lambda: r2_write_once(repo), lambda: r3_metadata_in_every_file(repo),
             lambda: r4_regeneration_source(repo), lambda: r5_index_passes_agree(repo), lambda: r6_capacity_from_window(repo),
-            lambda: r7_rows_start_inside_the_file(repo)]
+            lambda: r7_rows_start_inside_the_file(repo), lambda: r9_only_own_files_published(repo)]
+
+
+def r9_only_own_files_published(repo=None):
+    """'Every finalized data file is interpretable on its own' needs every file that reaches a final name to be one this writer
+    created and completed: a tmp. file found under the name (left by a killed session or belonging to another writer) that the
+    close step renames is a finalized file with no index / a truncated body.  Decided by C02.R7 (typestate of the remembered
+    name between a failed or refused creation and the publishing rename)."""
+    from . import c02
+    x = c02.r7_failed_create_not_published(repo)
+    old = x.rid
+    x.rid = "C06.R9"
+    for f in x.findings:
+        f.rule = "C06.R9"
+    x.title = x.title + " [= %s]" % old
+    return x
 
 
 EXPLANATION = (
@@ -802,7 +817,7 @@ EXPLANATION = (
     "file does not exist and its glob matches every finalized RF file name and no tmp. name. R5: the counting pass and the filling "
     "pass of digital_rf_create_rf_data_index add a row under the same predicates. R6 (= C04.R3): the file's capacity and the room "
     "left in it are differences of two boundary samples obtained by the ceil helper from the printed name time and that time plus "
-    "one file cadence. R4 also: regeneration looks in every sub-directory before giving up. R7: a row is stored only for a block that starts before next_global_sample + samples_left, the first sample of the next file (the row condition of the fill pass is evaluated for the orderings 'block start == / > end of file'; atoms comparing the two are recognised by their linear form). R8: every store of the session start second (init_utc_timestamp) is integer-only or made by one of the exact conversion functions. Does NOT decide the other index row contents.")
+    "one file cadence. R4 also: regeneration looks in every sub-directory before giving up. R7: a row is stored only for a block that starts before next_global_sample + samples_left, the first sample of the next file (the row condition of the fill pass is evaluated for the orderings 'block start == / > end of file'; atoms comparing the two are recognised by their linear form). R8: every store of the session start second (init_utc_timestamp) is integer-only or made by one of the exact conversion functions. R9 (= C02.R7): only a file this writer created and completed reaches a final name - after a failed or refused creation the remembered tmp. name is not published by the close step. Does NOT decide the other index row contents.")
 TECHNIQUE = ('clang JSON AST + Python ast; attribute table extraction through forwarding helpers and 4-way comparison; truth-table equivalence of the two index passes; order-theoretic evaluation of the row condition (atoms classified by linear form); write-once field stores; glob/regex language inclusion')
 ASSUMPTIONS = ["HDF5 attribute API semantics", "clang 14 AST and CPython ast are faithful"]
 FILES = [C_LIB, "python/digital_rf/digital_rf_hdf5.py", "python/digital_rf/list_drf.py"]
